@@ -206,6 +206,35 @@ def _bits(rng, n):
     return [rng.randrange(2) for _ in range(n)]
 
 
+R_ODD = [0.3, 1.5e9, 2.5e9, 622.08e6, 7e8, 1e9 / 3, 1e9]
+FS_ODD = [40e9, 10e9, 7e9, 12.5e9, 1.0]
+# (R, fs) / fs-alone configurations: gv derives sps = int(np.round(fs/R)) (R defaults to 1e9)
+DERIVED = [{"R": 1.5e9, "fs": 10e9}, {"R": 3e9, "fs": 10e9}, {"R": 0.3, "fs": 2.0}, {"R": 7e8, "fs": 5e9}, {"R": 1e9, "fs": 8.6e9},
+           {"R": 1e9, "fs": 7.5e9}, {"R": 1e9, "fs": 8.5e9}, {"R": 2.5e9, "fs": 40e9}, {"fs": 24e9}, {"fs": 8.6e9}, {"fs": 3.4e9},
+           {"R": 1.5e9, "fs": 10e9, "N": 4}, {"R": 6e8, "fs": 10e9}, {"fs": 2.5e9, "N": 3}, {"R": 2e9, "fs": 33e9}]
+
+
+def _gv_for(rng, sps):
+    """a way of configuring gv that leaves gv.sps == sps: (sps, R) with integer- and non-integer-valued R, (sps, fs), N in force"""
+    r = rng.random()
+    if r < 0.4:
+        return None                                    # default: gv(sps=sps, R=1e9)
+    if r < 0.62:
+        conf = {"sps": sps, "R": rng.choice(R_ODD)}
+    elif r < 0.84:
+        conf = {"sps": sps, "fs": rng.choice(FS_ODD)}
+    else:
+        conf = {"sps": float(sps), "R": rng.choice(R_ODD)}
+    if rng.random() < 0.25:
+        conf["N"] = rng.choice([1, 3, 8])
+    return conf
+
+
+def _derived_sps(conf):
+    """the sps gv derives from (R, fs) / fs alone: int(np.round(fs/R)), half-to-even"""
+    return int(round(conf["fs"] / conf.get("R", 1e9)))
+
+
 def _sps_pool(tier):
     base = [1, 2, 3, 4, 5, 7, 8, 9, 15, 16, 17, 31, 32, 33, 63, 64, 65, 127, 128]
     return base
@@ -232,6 +261,26 @@ def gen_cases(rng, tier):
             ks = list(range(sps)) if sps <= 33 else sorted({0, sps - 1, sps // 2, sps // 2 - 1, rng.randrange(sps)})
         cases.append({"kind": "wave", "form": form, "bits": bits, "sps": sps, "shape": shape, "vout": vout, "bias": bias,
                       "ks": ks, "kw": {}})
+        conf = _gv_for(rng, sps)
+        if conf:
+            cases[-1]["gv"] = conf
+    # every way of configuring gv: sps derived from (R, fs) with non-integer fs/R, from fs alone, N in force; and the (sps, fs) /
+    # (sps, R) settings for which fs/R is not exactly sps in floating point
+    special = [(c, _derived_sps(c)) for c in DERIVED]
+    special += [({"sps": k, "fs": 40e9}, k) for k in (31, 62, 111, 121, 123, 124)]
+    special += [({"sps": k, "R": 0.3}, k) for k in (31, 57, 62, 109, 124)]
+    special += [({"sps": k, "R": 1e9 / 3}, k) for k in (3, 7, 49)] + [({"sps": k, "fs": 1.0}, k) for k in (3, 7, 10, 49)]
+    for conf, sps in special:
+        for shape in ("nrz", "rz"):
+            bits = _bits(rng, rng.randrange(2, 5))
+            if len(set(bits)) < 2:
+                bits = [1, 0, 1]
+            cases.append({"kind": "wave", "form": FORMS[rng.randrange(len(FORMS))], "bits": bits, "sps": sps, "shape": shape,
+                          "vout": pv("float", rng.choice([1.0, -2.5, 3.25])), "bias": pv("float", rng.choice([0.0, 0.5])),
+                          "ks": sorted({0, sps - 1, max(sps // 2 - 1, 0)}), "kw": {}, "gv": conf})
+        n = rng.randrange(2 * sps + 1, 4 * sps + 2)
+        cases.append({"kind": "sampler", "sps": sps, "sig": [rng.randrange(-64, 64) / 8.0 for _ in range(n)],
+                      "noise": [rng.randrange(-64, 64) / 16.0 for _ in range(n)], "k": rng.randrange(sps), "gv": conf})
     # invalid bit entries / empty input (binary_sequence rejects; electrical_signal rejects empty)
     for bits in ([0, 2, 1], [1, -1], [], [3]):
         cases.append({"kind": "wave", "form": "list", "bits": bits, "sps": 4, "shape": "nrz", "vout": pv("float", 1.0),
@@ -327,6 +376,9 @@ def gen_cases(rng, tier):
         noise = [rng.randrange(-64, 64) / 16.0 for _ in range(n)] if rng.random() < 0.7 else None
         k = rng.choice([0, sps - 1, rng.randrange(sps), rng.randrange(sps), n - 1, n, n + 3, -1, -rng.randrange(1, n + 3)])
         cases.append({"kind": "sampler", "sps": sps, "sig": sig, "noise": noise, "k": k})
+        conf = _gv_for(rng, sps)
+        if conf:
+            cases[-1]["gv"] = conf
     # --- Gaussian grid (oracle only) ----------------------------------------------------------------------------------------
     gs = [8, 9, 16, 17, 32, 33] if quick else [8, 9, 10, 11, 12, 16, 17, 31, 32, 33, 64, 65, 127, 128]
     for sps in gs:
@@ -349,6 +401,13 @@ def gen_cases(rng, tier):
             for m in ([1, rng.randrange(2, 5)] if quick else [1, 2, 3, 4]):
                 cases.append({"kind": "gauss", "sps": sps, "T": T, "m": m, "bits": rng.choice(mixed),
                               "vout": rng.choice([1.0, -2.5, 5, 47.5]), "bias": rng.choice([0.0, 0.5, -1])})
+        # a 1 in the first slot / the last slot / both, and 1- and 2-bit sequences: the pulse is cut by the record edge
+        edge = [[1], [1, 0], [0, 1], [1, 1], [1, 0, 0, 0], [0, 0, 0, 1], [1, 0, 0, 0, 1], [1, 0, 0, 0, 0, 1, 1], [1, 0, 0, 0, 1, 0, 0, 0, 1]]
+        for T in ([sps, 2 * sps, rng.choice([-(-sps // 2), (3 * sps) // 2, 2 * sps - 1])] if quick
+                  else [-(-sps // 2), sps - 1, sps, sps + 1, (3 * sps) // 2, 2 * sps - 1, 2 * sps]):
+            for bits in (rng.sample(edge, 4) if quick else edge):
+                cases.append({"kind": "gauss", "sps": sps, "T": T, "m": rng.randrange(1, 5), "bits": bits,
+                              "vout": rng.choice([1.0, -2.5, 5, 47.5]), "bias": rng.choice([0.0, 0.5, -1])})
         # default T (= sps), arbitrary pattern: round trip at k = sps//2
         for _ in range(2 if quick else 10):
             cases.append({"kind": "gauss", "sps": sps, "T": None, "m": rng.randrange(1, 5),
@@ -362,12 +421,19 @@ def gen_cases(rng, tier):
 # implementation runner
 # ---------------------------------------------------------------------------------------------------------------------
 
-def _set_gv(sps):
+def _gv_conf(case):
+    return case.get("gv") or {"sps": case["sps"], "R": 1e9}
+
+
+def _set_gv(case):
+    """configure the global grid the way the case says (default gv(sps=, R=1e9)); returns what gv then reports"""
     from opticomlib.typing import gv
     gv.clean()
     with warnings.catch_warnings():
         warnings.simplefilter("ignore")
-        gv(sps=sps, R=1e9)
+        gv(**_gv_conf(case))
+    return {"gv_sps": gv.sps if isinstance(gv.sps, (int, float)) else repr(gv.sps), "gv_sps_type": type(gv.sps).__name__,
+            "gv_fs": float(gv.fs), "gv_R": float(gv.R)}
 
 
 def _outcome(fn, args, kwargs, limit=20):
@@ -414,7 +480,7 @@ def run_impl(case):
     from opticomlib.devices import DAC, SAMPLER
     res = {}
     try:
-        _set_gv(case["sps"])
+        res.update(_set_gv(case))
         if case["kind"] == "sampler":
             x = electrical_signal(np.array(case["sig"], dtype=float),
                                   None if case["noise"] is None else np.array(case["noise"], dtype=float))
@@ -790,6 +856,12 @@ def oracle(case, res):
     v = []
     if res.get("status") == "timeout":
         return [("C05:timeout", f"{case['kind']} did not return: {res.get('detail')}")]
+    if "gv_sps" in res and case["kind"] in ("wave", "validate", "sampler", "gauss"):
+        conf = _gv_conf(case)
+        want_fs = conf["fs"] if "fs" in conf else conf["R"] * int(round(conf["sps"]))
+        if res["gv_sps_type"] != "int" or res["gv_sps"] != case["sps"] or not (res["gv_fs"] == want_fs):
+            return [("C05:gv-config", f"gv({conf}) reports sps={res['gv_sps']!r} ({res['gv_sps_type']}), fs={res['gv_fs']!r}; "
+                     f"required int sps={case['sps']}, fs={want_fs!r}")]
     if res.get("positional"):
         v.append(("C05:positional:DAC", f"DAC called with {DAC_ORDER} positionally differs from the keyword call "
                   f"(bits={case.get('bits')}, Vout={case.get('vout')}, bias={case.get('bias')}, shape={case.get('shape', 'gaussian')!r}): "
@@ -838,12 +910,14 @@ def oracle(case, res):
         Teff = sps if T is None else T
         ones = [j for j, b in enumerate(bits) if b]
         isolated = len(ones) == 1 and 3 <= ones[0] <= len(bits) - 4
-        # every 1 with at least three 0s on both sides (and three slots from either end) is an isolated 1, whatever else the
-        # sequence holds (runs of adjacent 1s elsewhere): each is judged by its OWN pulse
-        lone = [j for j in ones if 3 <= j <= len(bits) - 4 and not any(bits[q] for q in range(j - 3, j + 4) if q != j)]
+        # every 1 with no other 1 within three slots is an isolated 1, whatever else the sequence holds (runs of adjacent 1s
+        # elsewhere) and wherever it sits - first / last slot and 1- or 2-bit sequences included: each is judged by its OWN
+        # pulse, an edge pulse on the part of it that lies inside the record
+        n_smp = len(y)
+        lone = [j for j in ones if not any(bits[q] for q in range(max(j - 3, 0), min(j + 4, len(bits))) if q != j)]
         if lone and sps >= 8 and sps / 2 <= Teff <= 2 * sps and 1 <= m <= 4:
             for j in lone:
-                lo, hi = (j - 1) * sps, (j + 2) * sps                  # the peak is searched around the slot only
+                lo, hi = max((j - 1) * sps, 0), min((j + 2) * sps, n_smp)     # the peak is searched around the slot only
                 mx = max(y[lo:hi])
                 plateau = [i for i in range(lo, hi) if y[i] >= mx - 1e-9]
                 dpos = min(min(abs(i - (j * sps + sps / 2)), abs(i - (j * sps + (sps - 1) / 2))) for i in plateau)
@@ -857,11 +931,19 @@ def oracle(case, res):
                     i0 = i1 = plateau[0]
                     while i0 - 1 >= 0 and y[i0 - 1] >= mx / 2:
                         i0 -= 1
-                    while i1 + 1 < len(y) and y[i1 + 1] >= mx / 2:
+                    while i1 + 1 < n_smp and y[i1 + 1] >= mx / 2:
                         i1 += 1
+                    # half-maximum points required at (centre -+ T/2) within one sample each; a side that leaves the record is
+                    # judged at the record edge
+                    centre = j * sps + (sps - 1) / 2
+                    want0, want1 = centre - Teff / 2, centre + Teff / 2
+                    bad0 = (i0 != 0) if want0 < -1 else not (abs(i0 - max(want0, 0)) <= 1.5)
+                    bad1 = (i1 != n_smp - 1) if want1 > n_smp else not (abs(i1 - min(want1, n_smp - 1)) <= 1.5)
                     width = i1 - i0 + 1
-                    if not (abs(width - Teff) <= 1):
-                        v.append(("C05:gauss-fwhm", f"{tag}: {width} samples above half maximum"))
+                    inside = want0 >= 0 and want1 <= n_smp - 1
+                    if (inside and not (abs(width - Teff) <= 1)) or (not inside and (bad0 or bad1)):
+                        v.append(("C05:gauss-fwhm", f"{tag}: above half maximum on samples {i0}..{i1} ({width} samples), required "
+                                  f"{max(want0, 0):.1f}..{min(want1, n_smp - 1):.1f}"))
                 if v:
                     break
         # round trip at k = sps//2 (T <= sps: neighbouring pulses stay below half level; isolated ones: any T)
@@ -931,6 +1013,7 @@ def features(case, res):
     if res.get("status") == "err":
         f.append("err=" + res["err"])
     sps = case["sps"]
+    f.append("gv(" + ",".join(sorted(_gv_conf(case))) + ")" + ("" if Fraction(_gv_conf(case).get("R", 1e9)).denominator == 1 else ":R-non-integer"))
     f.append("sps=" + ("1" if sps == 1 else "odd" if sps % 2 else "pow2" if sps & (sps - 1) == 0 else "even"))
     if case["kind"] in ("wave", "validate"):
         f.append(f"shape={case['shape']!r}"[:24])
